@@ -13,7 +13,7 @@ from ..tlc import MachineryError
 from . import common
 
 C09_KEYS = ["dagAcyclic", "dagMeaning", "cnfConstraints", "cnfCompletion"]
-C10_KEYS = ["nnfDecomposable", "nnfSmooth", "nnfDeterministic", "nnfSameModels", "nnfLabels"]
+C10_KEYS = ["nnfDecomposable", "nnfSmooth", "nnfDeterministic", "nnfSameModels", "nnfLabels", "nnfConstraints"]
 
 
 def graph_cyclic(g):
@@ -86,7 +86,7 @@ def run_both(ctx, which):
             ctx.violation({"clause": "weights-changed"}, "atom weights differ between DAG / CNF / circuit\n" +
                           texts[i], {"program": p, "text": texts[i]})
         cases.append(r)
-    send = [{k: v for k, v in c.items() if k in ("id", "src", "dag", "cnf", "nnf", "names", "constraints", "hasnnf")}
+    send = [{k: v for k, v in c.items() if k in ("id", "src", "dag", "cnf", "nnf", "names", "constraints", "hasnnf", "cc", "nc")}
             for c in cases]
     J = tlc.judge_batch("JudgeCircuit", send, nproc=ctx.nproc, tag=which.lower())
     keys = C09_KEYS if which == "C09" else C10_KEYS
